@@ -8,7 +8,11 @@ use cooklang::{Extensions, ScalableRecipe};
 use serde_json::{json, Value as J};
 
 fn parse_image(ps: &mut Parsers, text: &str, ext: u32) -> Result<(Vec<String>, Option<J>), crate::core::PanicRec> {
-    let parser = ps.parser(ext, "bundled").clone();
+    parse_image_with(ps, text, ext, "bundled")
+}
+
+fn parse_image_with(ps: &mut Parsers, text: &str, ext: u32, conv: &str) -> Result<(Vec<String>, Option<J>), crate::core::PanicRec> {
+    let parser = ps.parser(ext, conv).clone();
     let r = crate::core::guarded(|| parser.parse(text))?;
     let errors: Vec<String> = r.report().errors().map(|e| e.message.to_string()).collect();
     let img = r.output().map(|o| serde_json::to_value(o).unwrap());
@@ -17,14 +21,18 @@ fn parse_image(ps: &mut Parsers, text: &str, ext: u32) -> Result<(Vec<String>, O
 
 /// Part A: one core spelling under all subsets
 pub fn check_core(ctx: &mut Ctx, ps: &mut Parsers, subsets: &[u32], text: &str, expected: Option<&J>) {
-    let case0 = Case::new("core", text, 0, "bundled");
+    check_core_with(ctx, ps, subsets, text, expected, "bundled")
+}
+
+pub fn check_core_with(ctx: &mut Ctx, ps: &mut Parsers, subsets: &[u32], text: &str, expected: Option<&J>, conv: &str) {
+    let case0 = Case::new("core", text, 0, conv);
     let mut first: Option<(u32, J)> = None;
     let mut visited = 0;
     for e in subsets {
         visited += 1;
-        let case = Case::new("core", text, *e, "bundled");
+        let case = Case::new("core", text, *e, conv);
         ctx.begin(&case);
-        match parse_image(ps, text, *e) {
+        match parse_image_with(ps, text, *e, conv) {
             Err(p) => {
                 // a core recipe has to parse (to the same recipe) under EVERY subset: a panic under this one is this
                 // property's business too, not only C03's
@@ -417,12 +425,51 @@ pub fn run(ctx: &mut Ctx) {
         "A step.\n\n> A paragraph with @ and # and ~ in it.\n\n= A section = with @ stray\n\nLast @salt{}.", "tab\there @a{1}\tthere", "a  b   c @a{} d",
         // text values with more than one dash (dates, codes) are no `a-b` range; recipe references are core syntax
         "Open the @wine{2015-10-03} and add @eggs{1-2-3}.", "Use #tin{20-25-cm} and @x{1 - 2 - handfuls} or @y{1/2-1-2%kg}.",
+        // a dash with a number on one side only is text, not half a range
+        "Chill the @stock{-4%°C} and set the #dial{-2}, add @x{2-} @y{- 3} and @z{7 -%kg}.",
         "Serve with @./sauces/Hollandaise{150%g} and @../basics/rice{} or @.\\local\\stock{1%l}.", "Top with @./Pesto{} and more @./Pesto{2%tbsp}.",
     ];
     for (k, t) in STRAY.iter().enumerate() {
         if ctx.mine(k as u64) {
             ctx.count("core_stray_texts");
             check_core(ctx, &mut ps, &subsets, t, None);
+        }
+    }
+    // a converter in which a later layer took spellings away from a unit (override): `9"` and `2 tbs` are plain words then,
+    // under every subset — the inline-quantity scan and the timer checks look units up in the converter
+    {
+        match override_layer_converter() {
+            Some(c) => {
+                ps.register("override_layer", c);
+                for (k, t) in ["Line a 9\" round #tin{} with paper.", "Add 2 tbs of @butter{} and wait 5 mins or 3 minutes.", "Cut 3\" strips, about 2 tbs. each, rest 10 mins."].iter().enumerate() {
+                    if ctx.mine(k as u64) {
+                        ctx.count("core_texts_with_units_removed_by_a_layer");
+                        check_core_with(ctx, &mut ps, &subsets, t, None, "override_layer");
+                    }
+                }
+            }
+            None => ctx.harness_errors.push("C02: the override layer does not build".into()),
+        }
+    }
+    // a front matter whose (quoted) keys are spelled like the configuration keys of the MODES extension: the front matter is
+    // plain metadata under every subset — the keys stay in the metadata and configure nothing
+    for (k, (key, value)) in [("[duplicate]", "ref"), ("[mode]", "components"), ("[define]", "text"), ("[mode]", "steps"), ("[duplicate]", "reference")].iter().enumerate() {
+        if !ctx.mine(k as u64) {
+            continue;
+        }
+        for quote in ["'", "\""] {
+            let text = format!("---\ntitle: Tea\n{quote}{key}{quote}: {value}\n---\nBoil the @water{{1%l}}. Add more @water{{2%l}}.\n\nServe in a #cup.\n");
+            ctx.count("core_front_matter_with_bracketed_keys");
+            check_core(ctx, &mut ps, &subsets, &text, None);
+            let case = Case::new("core", text.as_str(), 0, "bundled");
+            if let Ok((_, Some(img))) = parse_image(&mut ps, &text, 0) {
+                let kept = img["metadata"]["map"][*key] == J::String(value.to_string());
+                let defs = img["ingredients"].as_array().map(|a| a.iter().filter(|i| i["relation"]["type"] == "definition").count()).unwrap_or(0);
+                let steps = img["sections"][0]["content"].as_array().map(|a| a.iter().filter(|c| c["type"] == "step").count()).unwrap_or(0);
+                if !kept || defs != 2 || steps != 2 || img["cookware"].as_array().map(|a| a.len()) != Some(1) {
+                    ctx.violation(&case, "core_identical", "front_matter_key_acts_as_configuration", format!("front matter key {key:?}: kept in the metadata: {kept}; water definitions {defs} (2 expected), steps {steps} (2 expected)"));
+                }
+            }
         }
     }
     // texts that the parser with no extension either accepts or refuses (odd `>>` lines, below a front matter too): if it
@@ -466,11 +513,19 @@ pub fn run(ctx: &mut Ctx) {
     ctx.exhaustive = false;
 }
 
+fn override_layer_converter() -> Option<cooklang::Converter> {
+    let layer = "[extend]\nprecedence = \"override\"\n[extend.units]\ninch = { symbols = [\"in\"] }\ntbsp = { symbols = [\"tbsp\"] }\nminute = { names = [\"minute\"], symbols = [\"min\"], aliases = [] }\n";
+    toml::from_str::<cooklang::convert::UnitsFile>(layer).ok().and_then(|f| cooklang::Converter::builder().with_units_file(cooklang::convert::UnitsFile::bundled()).ok()?.with_units_file(f).ok()?.finish().ok())
+}
+
 pub fn replay(ctx: &mut Ctx, case: &Case) {
     let mut ps = Parsers::new();
+    if let Some(c) = override_layer_converter() {
+        ps.register("override_layer", c);
+    }
     let subsets: Vec<u32> = all_extension_subsets().iter().map(|e| e.bits()).collect();
     if case.kind == "core" {
-        check_core(ctx, &mut ps, &subsets, &case.input, None);
+        check_core_with(ctx, &mut ps, &subsets, &case.input, None, &case.conv);
     } else {
         // re-run the whole converse table (cheap) — the case's input is one of its entries
         ctx.nshards = 1;
